@@ -345,6 +345,8 @@ type env struct {
 	// mutexes locked on this path and not released by a deferred unlock: a return while one is held
 	// fails the translation (the generated definitions do not model locks; a leak must not pass)
 	locks map[string]bool
+	// mutexes held at this point (a deferred unlock does not release them before the function ends)
+	held map[string]bool
 }
 
 func (e env) clone() env {
@@ -367,6 +369,10 @@ func (e env) clone() env {
 	n.locks = map[string]bool{}
 	for k, v := range e.locks {
 		n.locks[k] = v
+	}
+	n.held = map[string]bool{}
+	for k, v := range e.held {
+		n.held[k] = v
 	}
 	for _, s := range e.scopes {
 		c := map[string]*val{}
@@ -566,6 +572,87 @@ func selectField(x val, goField string, en env, pos token.Pos) val {
 // function has changed it is a different oracle at each place it is read.
 var substOcc map[ast.Expr]int
 
+// selectOcc numbers the select statements of the function in source order (the spec names the
+// oracle that decides each: `selects`); returnHook, when set, receives the return statements of a
+// local function that is being translated inline where its result is tested.
+var selectOcc map[*ast.SelectStmt]int
+var returnHook func(r *ast.ReturnStmt, en env) string
+
+// oracleApp: "§name@x,y" applied to the local variables x, y (or "§name" alone)
+func oracleApp(spec string, en env, pos token.Pos) val {
+	i := strings.Index(spec, "@")
+	if i < 0 {
+		v, ok := en.vars[spec]
+		if !ok {
+			fail(pos, "unknown oracle %s", spec)
+		}
+		return v
+	}
+	f, ok := en.vars[spec[:i]]
+	if !ok {
+		fail(pos, "unknown oracle %s", spec[:i])
+	}
+	app := f.lean
+	for _, a := range strings.Split(spec[i+1:], ",") {
+		x, ok := en.vars[a]
+		if !ok {
+			fail(pos, "oracle %s: unknown variable %s", spec, a)
+		}
+		app += " " + atom(materialise(x, en, pos).lean)
+	}
+	return val{lean: "(" + app + ")", kd: f.kd.t[0], path: fresh("path")}
+}
+
+// trSelect: a select statement is a choice the function does not control; which way it goes is an
+// oracle named by the spec (a function of the local variables that identify the iteration).
+//   select { case <-c: A  default: B }          oracle true = the receive is ready (A)
+//   select { case ch <- v: A  case <-c: B }     oracle true = the value is sent (recorded as the
+//                                               effect the spec gives for ch), then A; false = B
+func trSelect(v *ast.SelectStmt, en env, next cont) string {
+	n := selectOcc[v]
+	spec, ok := cur.selects[n]
+	if !ok || len(v.Body.List) != 2 {
+		fail(v.Pos(), "select statement %d", n)
+	}
+	c0, c1 := v.Body.List[0].(*ast.CommClause), v.Body.List[1].(*ast.CommClause)
+	isRecv := func(c *ast.CommClause) bool {
+		es, ok := c.Comm.(*ast.ExprStmt)
+		if !ok {
+			return false
+		}
+		u, ok := es.X.(*ast.UnaryExpr)
+		return ok && u.Op == token.ARROW
+	}
+	orc := oracleApp(spec, en, v.Pos())
+	if orc.kd.k != "bool" {
+		fail(v.Pos(), "select oracle of kind %s", orc.kd)
+	}
+	body := func(c *ast.CommClause, e env) string {
+		return trStmts(c.Body, e.push(), func(e2 env) string { return next(e2.pop()) })
+	}
+	switch {
+	case isRecv(c0) && c1.Comm == nil:
+		return fmt.Sprintf("(if %s = true then %s\nelse %s)", atom(orc.lean), body(c0, en), body(c1, en))
+	case isRecv(c1):
+		snd, ok := c0.Comm.(*ast.SendStmt)
+		if !ok {
+			fail(v.Pos(), "select statement %d: first case is not a send", n)
+		}
+		ctor, ok := cur.chanSends[render(snd.Chan)]
+		if !ok {
+			fail(snd.Pos(), "send on %s", render(snd.Chan))
+		}
+		requireHeld(snd.Pos(), en, "send on "+render(snd.Chan))
+		x := trExpr(snd.Value, en)
+		e1 := absorb(en).clone()
+		e1.effects = append(e1.effects, "(Eff."+ctor+" "+atom(x.lean)+")")
+		lets := takeLets()
+		return wrapLets(lets, fmt.Sprintf("(if %s = true then %s\nelse %s)", atom(orc.lean), body(c0, e1), body(c1, absorb(en))))
+	}
+	fail(v.Pos(), "select statement %d: unsupported shape", n)
+	return ""
+}
+
 func numberOccurrences(body *ast.BlockStmt, subst map[string]string) map[ast.Expr]int {
 	bases := map[string]bool{}
 	for k := range subst {
@@ -697,6 +784,9 @@ func trExpr(e ast.Expr, en env) val {
 			key += "#" + strconv.Itoa(n)
 		}
 		if s, ok := cur.subst[key]; ok {
+			if !cur.unguarded[render(e)] {
+				requireHeld(e.Pos(), en, "read of "+key)
+			}
 			if i := strings.Index(s, "@"); i >= 0 {
 				// the substituted value depends on local variables: the oracle parameter is a function
 				f := en.vars[s[:i]]
@@ -787,6 +877,26 @@ func trExpr(e ast.Expr, en env) val {
 				if render(cl.Type) == "spb.AFTResult" {
 					return trAFTResult(cl, en)
 				}
+				if oc, on := oneofMember("*" + render(cl.Type)); oc != nil {
+					// &spb.AFTEntry_Ipv4{Ipv4: p}: a member of a protobuf oneof
+					given := map[string]string{}
+					for _, el := range cl.Elts {
+						kv, ok := el.(*ast.KeyValueExpr)
+						if !ok {
+							fail(el.Pos(), "positional composite literal")
+						}
+						given[render(kv.Key)] = atom(trExpr(kv.Value, en).lean)
+					}
+					app := oc.ctor
+					for _, f := range oc.fields {
+						g, ok := given[f.goName]
+						if !ok {
+							g = zeroOf(f.kd)
+						}
+						app += " " + g
+					}
+					return val{lean: "(some (" + app + "))", kd: kind{k: "oneof", s: on}, path: fresh("path")}
+				}
 				return trComposite(cl, en)
 			}
 		}
@@ -838,6 +948,34 @@ func trExpr(e ast.Expr, en env) val {
 						}
 					}
 					return val{lean: "[" + strings.Join(els, ", ") + "]", kd: kind{k: "list", s: name, optElems: true}}
+				}
+			}
+		}
+		if at, ok := v.Type.(*ast.ArrayType); ok && len(v.Elts) > 0 {
+			if st, ok := at.Elt.(*ast.StarExpr); ok {
+				name := strings.TrimPrefix(render(st.X), "spb.")
+				if cur != nil {
+					if a, ok := cur.typeMap[name]; ok {
+						name = a
+					}
+				}
+				if _, ok := schemas[name]; ok {
+					// []*T{{…}, &T{…}}: a slice of pointers to new structs (element types may be elided)
+					var els []string
+					for _, el := range v.Elts {
+						cl, ok := el.(*ast.CompositeLit)
+						if u, isU := el.(*ast.UnaryExpr); isU && u.Op == token.AND {
+							cl, ok = u.X.(*ast.CompositeLit)
+						}
+						if !ok || (cl.Type != nil && render(cl.Type) != render(st.X)) {
+							fail(el.Pos(), "element of a slice literal of %s", name)
+						}
+						c2 := *cl
+						c2.Type = st.X
+						x := trComposite(&c2, en)
+						els = append(els, en.bound[x.path])
+					}
+					return val{lean: "[" + strings.Join(els, ", ") + "]", kd: kind{k: "list", s: name, elemNN: true}}
 				}
 			}
 		}
@@ -977,6 +1115,27 @@ func trExpr(e ast.Expr, en env) val {
 // belongs to is identified by ID; error texts are not compared)
 var ignoredFields = map[string]map[string]bool{
 	"RibOpResult": {"Op": true, "Error": true},
+}
+
+// oneofMember: the case of a protobuf oneof whose Go wrapper type is goType, and the oneof's name
+func oneofMember(goType string) (*oneofCase, string) {
+	var names []string
+	for n := range oneofs {
+		names = append(names, n)
+	}
+	sort.Strings(names)
+	for _, n := range names {
+		if cur != nil && cur.oneofView != "" && n != cur.oneofView {
+			continue
+		}
+		cs := oneofs[n]
+		for i := range cs {
+			if cs[i].goType == goType {
+				return &cs[i], n
+			}
+		}
+	}
+	return nil, ""
 }
 
 // trComposite: &clientParams{F: e, ...}
@@ -2100,6 +2259,7 @@ func trCall(c *ast.CallExpr, en env) []val {
 		}
 		if ok {
 			if o.effect != "" {
+				requireHeld(c.Pos(), en, "call of "+fn)
 				var args []string
 				if o.args != nil && containsInt(o.args, -1) {
 					args = append(args, atom(trExpr(c.Fun.(*ast.SelectorExpr).X, en).lean))
@@ -2507,7 +2667,58 @@ func isNilIdent(e ast.Expr) bool {
 
 func trCond(e ast.Expr, en env, kt, kf cont) string {
 	switch v := e.(type) {
+	case *ast.Ident:
+		switch v.Name {
+		case "true":
+			return kt(en)
+		case "false":
+			return kf(en)
+		}
 	case *ast.CallExpr:
+		if fl, ok := en.closures[render(v.Fun)]; ok && fl != nil && fl.Type.Results != nil && len(fl.Type.Results.List) == 1 && render(fl.Type.Results.List[0].Type) == "bool" {
+			// the test of a local function's result: its body, inline, with the parameters bound to
+			// the arguments; `return e` inside it continues where the test of e leads
+			var names []string
+			for _, p := range fl.Type.Params.List {
+				for _, n := range p.Names {
+					names = append(names, n.Name)
+				}
+			}
+			if len(names) != len(v.Args) {
+				fail(v.Pos(), "call of %s with %d arguments", render(v.Fun), len(v.Args))
+			}
+			depth := len(en.scopes)
+			e1 := en.push()
+			for i, a := range v.Args {
+				x := trExpr(a, en)
+				for k, b := range en.bound {
+					e1.bound[k] = b
+				}
+				bindResult(&e1, names[i], x, true, v.Pos())
+			}
+			e1 = absorb(e1)
+			lets := takeLets()
+			saved := returnHook
+			returnHook = func(r *ast.ReturnStmt, e2 env) string {
+				if len(r.Results) != 1 {
+					fail(r.Pos(), "return in a local function tested as a condition")
+				}
+				for len(e2.scopes) > depth {
+					e2 = e2.pop()
+				}
+				inner := returnHook
+				returnHook = saved
+				out := trCond(r.Results[0], e2, kt, kf)
+				returnHook = inner
+				return out
+			}
+			out := trStmts(fl.Body.List, e1, func(env) string {
+				fail(fl.Body.Rbrace, "control reaches the end of a local function that returns a value")
+				return ""
+			})
+			returnHook = saved
+			return wrapLets(lets, out)
+		}
 		if render(v.Fun) == "isNil" && len(v.Args) == 1 {
 			// rib.isNil(x): the reflective nil test of a value of pointer type
 			return trCond(&ast.BinaryExpr{X: v.Args[0], Op: token.EQL, OpPos: v.Pos(), Y: &ast.Ident{Name: "nil", NamePos: v.Pos()}}, en, kt, kf)
@@ -2685,13 +2896,30 @@ func lockEffect(c *ast.CallExpr, en env, deferred bool) env {
 		}
 		e := en.clone()
 		e.locks[m] = true
+		e.held[m] = true
 		return e
 	case "Unlock", "RUnlock":
 		e := en.clone()
 		delete(e.locks, m)
+		if !deferred {
+			delete(e.held, m)
+		}
 		return e
 	}
 	return en
+}
+
+// requireHeld: the spec names mutexes that must be held wherever the function reads the state they
+// guard or makes a recorded call (holdLocks); a path that does so without them fails the translation
+func requireHeld(pos token.Pos, en env, what string) {
+	if cur == nil {
+		return
+	}
+	for _, m := range cur.holdLocks {
+		if !en.held[m] {
+			fail(pos, "%s without holding %s", what, m)
+		}
+	}
 }
 
 func heldLocks(en env) string {
@@ -3282,7 +3510,12 @@ func trStmts(list []ast.Stmt, en env, k cont) string {
 		}
 	}
 	switch v := s.(type) {
+	case *ast.SelectStmt:
+		return trSelect(v, en, next)
 	case *ast.ReturnStmt:
+		if returnHook != nil {
+			return returnHook(v, en)
+		}
 		if cur != nil && cur.loop {
 			fail(v.Pos(), "return in the receive loop that does not follow a send on errCh")
 		}
@@ -4012,7 +4245,7 @@ func translate(sp *fnSpec, files map[string]*ast.File, srcs map[string][]byte) (
 	resTypeStack = nil
 	loopConts = nil
 	inJoinAttempt = map[ast.Stmt]bool{}
-	en := env{vars: map[string]val{}, bound: map[string]string{}, isNil: map[string]bool{}, closures: map[string]*ast.FuncLit{}, locks: map[string]bool{}}
+	en := env{vars: map[string]val{}, bound: map[string]string{}, isNil: map[string]bool{}, closures: map[string]*ast.FuncLit{}, locks: map[string]bool{}, held: map[string]bool{}}
 	var binders []string
 	// Go parameters, in order, must be the ones the spec lists
 	var goParams []string
@@ -4032,6 +4265,14 @@ func translate(sp *fnSpec, files map[string]*ast.File, srcs map[string][]byte) (
 		expandClosures(fd.Body)
 	}
 	substOcc = numberOccurrences(fd.Body, sp.subst)
+	selectOcc = map[*ast.SelectStmt]int{}
+	ast.Inspect(fd.Body, func(n ast.Node) bool {
+		if sl, ok := n.(*ast.SelectStmt); ok {
+			selectOcc[sl] = len(selectOcc) + 1
+		}
+		return true
+	})
+	returnHook = nil
 	stmts := fd.Body.List
 	if sp.loop {
 		// one iteration of the receive loop of the first goroutine the function starts, from the
